@@ -13,6 +13,7 @@ import (
 	"github.com/cloudflare/circl/oprf"
 	"github.com/cloudflare/pat-go/ecdsa"
 	"github.com/cloudflare/pat-go/ed25519"
+	"github.com/cloudflare/pat-go/quicwire"
 	"github.com/cloudflare/pat-go/tokens"
 	"github.com/cloudflare/pat-go/tokens/batched"
 	"github.com/cloudflare/pat-go/tokens/type1"
@@ -319,6 +320,147 @@ func newVerdictWorld(c *ctx, kind string, hid int) *verdictWorld {
 					if !oracle(t) {
 						w.sound = false
 					}
+				}
+				return true, ""
+			}
+		}
+	case "t1issue", "t2issue", "t5issue", "t3issue":
+		// one long-lived issuer; every class is one encoded request, answered (or not) every time it is presented; an
+		// answer is judged by the client state that made the request
+		type reqv struct {
+			enc   []byte
+			judge func(resp, brk []byte) bool // nil for requests that must be refused
+		}
+		vals := map[string]reqv{}
+		var evaluate func(enc []byte) (resp, brk []byte, err error)
+		switch kind {
+		case "t1issue":
+			k := p384Key(c.seed, "k1")
+			iss := type1.NewBasicPrivateIssuer(k)
+			obj := new(type1.BasicPrivateTokenRequest) // ONE request object the issuer side decodes into
+			evaluate = func(enc []byte) ([]byte, []byte, error) {
+				if !obj.Unmarshal(enc) {
+					return nil, nil, fmt.Errorf("does not decode")
+				}
+				resp, err := iss.Evaluate(obj)
+				return resp, nil, err
+			}
+			mk := func() reqv {
+				st, err := type1.NewBasicPrivateClient().CreateTokenRequest(randBytes(r, 9), randNonce(r), iss.TokenKeyID(), iss.TokenKey())
+				if err != nil {
+					panic(err)
+				}
+				return reqv{append([]byte{}, st.Request().Marshal()...), func(resp, _ []byte) bool {
+					t, err := st.FinalizeToken(resp)
+					return err == nil && bytesEq(fullEvaluate(oprf.SuiteP384, k, authInput(t)), t.Authenticator)
+				}}
+			}
+			h := mk()
+			vals["honest"], vals["honest2"] = h, mk()
+			vals["bad"] = reqv{append(append([]byte{}, h.enc[:3]...), bytesRepeat(0xff, 49)...), nil}
+			vals["short"] = reqv{append([]byte{}, h.enc[:len(h.enc)-1]...), nil}
+		case "t2issue":
+			k := rsaKey(1)
+			iss := type2.NewBasicPublicIssuer(k)
+			obj := new(type2.BasicPublicTokenRequest)
+			evaluate = func(enc []byte) ([]byte, []byte, error) {
+				if !obj.Unmarshal(enc) {
+					return nil, nil, fmt.Errorf("does not decode")
+				}
+				resp, err := iss.Evaluate(obj)
+				return resp, nil, err
+			}
+			mk := func() reqv {
+				st, err := type2.NewBasicPublicClient().CreateTokenRequest(randBytes(r, 9), randNonce(r), iss.TokenKeyID(), iss.TokenKey())
+				if err != nil {
+					panic(err)
+				}
+				return reqv{append([]byte{}, st.Request().Marshal()...), func(resp, _ []byte) bool {
+					t, err := st.FinalizeToken(resp)
+					return err == nil && verifyPSS(&k.PublicKey, t) == nil
+				}}
+			}
+			h := mk()
+			vals["honest"], vals["honest2"] = h, mk()
+			vals["bad"] = reqv{append(append([]byte{}, h.enc[:3]...), bytesRepeat(0xff, 256)...), nil}
+			vals["short"] = reqv{append([]byte{}, h.enc[:len(h.enc)-1]...), nil}
+		case "t5issue":
+			k := ristrettoKey(c.seed, "k1")
+			iss := type5.NewBatchedPrivateIssuer(k)
+			obj := new(type5.BatchedPrivateTokenRequest)
+			evaluate = func(enc []byte) ([]byte, []byte, error) {
+				if !obj.Unmarshal(enc) {
+					return nil, nil, fmt.Errorf("does not decode")
+				}
+				resp, err := iss.Evaluate(obj)
+				return resp, nil, err
+			}
+			mk := func(n int) reqv {
+				ns := [][]byte{}
+				for i := 0; i < n; i++ {
+					ns = append(ns, randNonce(r))
+				}
+				st, err := type5.NewBatchedPrivateClient().CreateTokenRequest(randBytes(r, 9), ns, iss.TokenKeyID(), iss.TokenKey())
+				if err != nil {
+					panic(err)
+				}
+				return reqv{append([]byte{}, st.Request().Marshal()...), func(resp, _ []byte) bool {
+					ts, err := st.FinalizeTokens(resp)
+					if err != nil || len(ts) != n {
+						return false
+					}
+					for _, t := range ts {
+						if !bytesEq(fullEvaluate(oprf.SuiteRistretto255, k, authInput(t)), t.Authenticator) {
+							return false
+						}
+					}
+					return true
+				}}
+			}
+			h := mk(3)
+			vals["honest"], vals["honest2"] = h, mk(1)
+			_, lw := quicwire.ConsumeVarint(h.enc[3:]) // the list starts behind type, key id and the list length
+			base := 3 + lw
+			b2 := append([]byte{}, h.enc...)
+			for j := 0; j < 64; j++ {
+				b2[base+32+j] = 0xff // elements 2 and 3
+			}
+			b1 := append([]byte{}, h.enc...)
+			for j := 0; j < 32; j++ {
+				b1[base+64+j] = 0xff
+			}
+			vals["bad2"], vals["bad1"] = reqv{b2, nil}, reqv{b1, nil}
+		case "t3issue":
+			x := newRLWorld(c)
+			evaluate = func(enc []byte) ([]byte, []byte, error) { return x.w.issuer.Evaluate(enc) }
+			blind := randScalar(r)
+			mk := func(origin, ik string, b []byte) reqv {
+				st, err := type3.NewRateLimitedClientFromSecret(x.secret).CreateTokenRequest(randBytes(r, 9), randNonce(r), b,
+					x.w.issuer.TokenKeyID(), x.w.issuer.TokenKey(), origin, x.w.issuer.NameKey())
+				if err != nil {
+					panic(err)
+				}
+				return reqv{append([]byte{}, st.Request().Marshal()...), func(resp, brk []byte) bool {
+					t, err := st.FinalizeToken(resp)
+					return err == nil && verifyPSS(x.w.issuer.TokenKey(), t) == nil &&
+						bytesEq(brk, refIssuerBlinded(x.secret, b, p384Scalar(c.seed, "indexkey-"+ik)))
+				}}
+			}
+			h := mk(x.origin, "a", blind)
+			vals["honest"], vals["sameblind"], vals["honest2"] = h, mk(rlLongOrigin, "b", blind), mk(x.origin, "a", randScalar(r))
+			vals["sigflip"] = reqv{flipBit(h.enc, 8*len(h.enc)-3), nil}
+			vals["unreg"] = reqv{mk("nobody.example", "a", randScalar(r)).enc, nil}
+			vals["cut"] = reqv{append([]byte{}, h.enc[:len(h.enc)-1]...), nil}
+		}
+		for name, v := range vals {
+			v := v
+			w.present[name] = func() (bool, string) {
+				resp, brk, err := evaluate(append([]byte{}, v.enc...))
+				if err != nil {
+					return false, ""
+				}
+				if v.judge == nil || !v.judge(resp, brk) {
+					w.sound = false
 				}
 				return true, ""
 			}
